@@ -100,3 +100,18 @@ Theorem C11_L0_spacing_scanner_rejects_wrong_blanks :
   /\ Fmt0Space.scan (Fmt0Space.cfg_of CallForm.SCalls) (cons (Lex.TIdent (Lex.str "f")) (cons (Fmt0.kw "(") (cons (Fmt0.kw ")") nil))) = None.
 Proof. split; [exact (proj1 Fmt0Space.scanner_rejects)|exact (proj1 (proj2 Fmt0Space.scanner_rejects))]. Qed.
 Print Assumptions C11_L0_spacing_scanner_rejects_wrong_blanks.
+(* quote_style on L0: every quoted string token of what format0 prints - for every program and configuration - passes the judge that
+   reads the output token alone: it carries the quote QuoteMore.choose picks for its own body (the forced quote; or the preferred one
+   unless the other needs strictly fewer escapes, C11_auto_prefers_unless_strictly_fewer_escapes).  The same judge (extracted) runs
+   on every string token of every output of the check. *)
+From SV Require Fmt0Toks.
+Theorem C11_L0_every_string_obeys_quote_style : forall c p,
+  forallb (Fmt0.quote_ok (Fmt0.style0 c)) (Fmt0.pprog c (Fmt0.norm0 c p)) = true.
+Proof. exact Fmt0Toks.format0_strings_obey_quote_style. Qed.
+Print Assumptions C11_L0_every_string_obeys_quote_style.
+Theorem C11_quote_judge_rejects_wrong_quotes :
+  Fmt0.quote_ok QuoteMore.ForceDouble (Lex.TStr Lex.QSingle 0 (Lex.str "a")) = false /\ Fmt0.quote_ok QuoteMore.AutoDouble (Lex.TStr Lex.QSingle 0 (Lex.str "a")) = false /\
+  Fmt0.quote_ok QuoteMore.AutoDouble (Lex.TStr Lex.QSingle 0 (Lex.str "say ""hi""")) = true /\ Fmt0.quote_ok QuoteMore.AutoDouble (Lex.TStr Lex.QDouble 0 (Lex.str "say \""hi\""")) = false /\
+  Fmt0.quote_ok QuoteMore.AutoSingle (Lex.TStr Lex.QDouble 0 (Lex.str "a")) = false.
+Proof. exact Fmt0Toks.quote_judge_rejects. Qed.
+Print Assumptions C11_quote_judge_rejects_wrong_quotes.
